@@ -169,3 +169,12 @@ Fixpoint wf (e : texpr) : Prop :=
   | TJoin l r => wf l /\ wf r
   | TParen es => es <> [] /\ (fix all (l : list texpr) : Prop := match l with [] => True | x :: t => wf x /\ all t end) es
   end.
+
+(** * Chain and table rule together *)
+
+(** the rule summary of an allow/deny handler for ONE statement when the table rule is evaluated by
+    the model itself ([tables] = the handler's `tables:` list, [s] = what the statement shows to
+    CheckTableNamesMatch); exact-query and pattern results stay inputs *)
+Definition rules_of (s : stmt_tables) (hq mq : bool) (tables : list bytes) (hp mp : bool) : rules :=
+  let '(one, all) := check_table_names tables s in
+  R hq mq (negb (is_nil tables)) one all hp mp.
